@@ -918,6 +918,11 @@ class ContractSet:
                 raise Unsupported("loop modifies must be attribute paths")
             base = I.resolve(I.ev(tgt.value, sfr))
             t = hav_types.get(lv)
+            if isinstance(base, VNone):
+                continue
+            if isinstance(base, VRef) and I.hobj(base).kind == "inst" and tgt.attr not in I.hobj(base).fields \
+                    and tgt.attr not in self.class_fields(I.hobj(base).cls):
+                continue        # this object has no such field (e.g. a V2 protocol has no packet counter)
             if t is None:
                 o = I.hobj(base) if isinstance(base, VRef) else None
                 t = self.class_fields(o.cls).get(tgt.attr) if o is not None and o.cls else None
